@@ -11,7 +11,7 @@ PROP = 'C19'
 MODEL_OPS = 'Reader.read_all on the whole file and sampled cuts (opcode classes from pickletools.genops), StreamM.reader_m / Reader.cut_status at EVERY offset'
 RULE = ('real fit files with 1-4 records of varying size, with and without predicted fluxes, NaN/inf chi2; pickletools.genops maps every opcode to a framing class '
         '(unknown opcodes fail closed) and every instruction is checked to have the length its class predicts; EVERY truncation offset 0..len-1 is read by '
-        'FitInfoFile and by the model. quick: 2 files; thorough: 16 files. evaluations = offsets read; non-trivial case = a file with >= 2 records.')
+        'FitInfoFile and by the model. quick: 2 files + 1 file of equal-length records; thorough: 16 + 4 files. evaluations = offsets read; non-trivial case = a file with >= 2 records.')
 EXHAUSTIVE = {'quick': True, 'thorough': True}
 ASSUMPTIONS = ["CPython's unpickler never returns an object before STOP and raises on an incomplete pickle (pickle's contract; exercised at every offset)",
                'which exception ends a truncated stream (EOFError / UnpicklingError / ...) is not compared']
@@ -29,6 +29,12 @@ def generate(tier, seed):
             chi = sorted(rng.dyadic(0, 40, 8) for _ in range(m)) + rng.choice([[], [math.inf], [math.nan]])
             recs.append(dict(name='s%d_%s' % (i, 'x' * rng.randint(0, 9)), nd=rng.choice([1, 2, 3, 5]), chi2=chi, fluxes=(k + i) % 2 == 0))
         cases.append(dict(recs=recs))
+    # files whose consecutive records have exactly the same serialized length (same shape, names of equal length, same numbers)
+    for k in range(1 if tier == 'quick' else 4):
+        m = rng.randint(1, 4)
+        chi = sorted(rng.dyadic(0, 40, 8) for _ in range(m))
+        pad = 'y' * rng.randint(0, 5)
+        cases.append(dict(recs=[dict(name='t%d_%s' % (i, pad), nd=2, chi2=list(chi), fluxes=k % 2 == 0) for i in range(rng.randint(2, 3))]))
     return cases
 
 
@@ -177,9 +183,10 @@ def judge(case, im, mo):
         chunks, status = r
         want, acc = [], 0
         for l in lens:
-            if acc + l <= c:
-                want.append(l)
-                acc += l
+            if acc + l > c:
+                break
+            want.append(l)
+            acc += l
         wstat = 'eof' if acc == c else 'trunc'
         if chunks != want or status != wstat:
             disagree.append('Reader.read_all on the first %d bytes yields %r/%s, the pickle boundaries say %r/%s' % (c, chunks, status, want, wstat))
